@@ -119,6 +119,9 @@ func Expect(sp *spec.Spec, t *spec.Type, sent any, locOf func(string) valgen.Loc
 			out[k] = Expect(sp, rt.Elem.Type, e, nil, nil, depth+1)
 		}
 		return vtree.MkMap(out)
+	case spec.Union:
+		// the same alternative, holding what its own type makes of the value (union.go)
+		return expectUnion(sp, rt, sent, depth)
 	}
 	return sent
 }
@@ -176,7 +179,7 @@ func locName(l valgen.Loc) string {
 func topAttr(path string) string {
 	p := strings.TrimPrefix(path, ".")
 	for i, r := range p {
-		if r == '.' || r == '[' || r == '{' {
+		if r == '.' || r == '[' || r == '{' || r == '|' {
 			return p[:i]
 		}
 	}
